@@ -71,6 +71,8 @@ type Interp struct {
 	orderMode string // "", "fwdrev", "all"
 	orderDev  bool   // a non-default iteration order was taken on this path
 	rangeCount int
+	releasedUse bool
+	pools       map[*Val][]Val
 	ifConverted int
 	noIfConv    bool
 
@@ -178,8 +180,19 @@ func (in *Interp) inconclusive(msg string) {
 
 // ---------------------------------------------------------------- monitors
 
+// noteAccess reports the use of memory that was handed back to a sync.Pool.
+func (in *Interp) noteAccess(o *Obj) {
+	if o != nil && o.Released && !in.releasedUse {
+		in.releasedUse = true
+		in.recordViolation("assert", "monitor: memory handed back to a sync.Pool is used afterwards (another goroutine may own it by then)", in.ex.Model())
+	}
+}
+
 func (in *Interp) noteWrite(o *Obj) {
-	if o == nil || !in.inLib() {
+	if o != nil {
+		in.noteAccess(o)
+	}
+	if o == nil || !in.inLib() || o.PoolOwned {
 		return
 	}
 	if in.initMark > 0 && (o.Global || o.ID <= in.initMark) {
@@ -818,7 +831,7 @@ func (in *Interp) asPtr(v Val) Ptr {
 
 // symTable reports whether cells[off:off+n] are all concrete scalars of one width.
 func symTable(cells []Val, off, n int) bool {
-	if n < 2 || n > 64 {
+	if n < 2 || n > 256 {
 		return false
 	}
 	w := -1
@@ -1158,20 +1171,16 @@ func (in *Interp) binop(op token.Token, t types.Type, x, y Val) Val {
 			}
 			return in.fromTerm(r)
 		default:
-			a, ok1 := xv.Conc()
-			b, ok2 := yv.Conc()
-			if !ok1 || !ok2 {
-				panic(pathEnd{"inconclusive", "ordering of symbolic strings"})
-			}
+			xa, ya := in.flat(xv).B, in.flat(yv).B
 			switch op {
 			case token.LSS:
-				return concBool(a < b)
+				return in.fromTerm(in.strLess(xa, ya))
 			case token.LEQ:
-				return concBool(a <= b)
+				return in.fromTerm(in.tt.Not(in.strLess(ya, xa)))
 			case token.GTR:
-				return concBool(a > b)
+				return in.fromTerm(in.strLess(ya, xa))
 			case token.GEQ:
-				return concBool(a >= b)
+				return in.fromTerm(in.tt.Not(in.strLess(xa, ya)))
 			}
 		}
 	}
@@ -1237,6 +1246,18 @@ func concBinop(op token.Token, w int, signed bool, x, y Sc) (Sc, bool) {
 		return concInt(w, a&^b), true
 	}
 	return Sc{}, false
+}
+
+// strLess is the lexicographic order of two byte strings of concrete length
+// with possibly symbolic contents.
+func (in *Interp) strLess(a, b []Sc) *Term {
+	n := min(len(a), len(b))
+	res := in.tt.Bool(len(a) < len(b))
+	for k := n - 1; k >= 0; k-- {
+		x, y := in.term(a[k]), in.term(b[k])
+		res = in.tt.Or(in.tt.Cmp(OUlt, x, y), in.tt.And(in.tt.Eq(x, y), res))
+	}
+	return res
 }
 
 func isNilVal(v Val) bool {
@@ -1335,6 +1356,7 @@ func (in *Interp) unop(instr *ssa.UnOp, x Val) Val {
 		if p.Slot == nil {
 			in.libPanic("nil-deref", "load")
 		}
+		in.noteAccess(p.Obj)
 		return copyVal(*p.Slot)
 	case token.NOT:
 		return in.fromTerm(in.tt.Not(in.term(x.(Sc))))
@@ -1366,6 +1388,9 @@ func (in *Interp) conv(dst, src types.Type, x Val) Val {
 	if isString(dst) {
 		switch xv := x.(type) {
 		case Slice: // []byte -> string
+			if xv.Len > 0 {
+				in.noteAccess(xv.Obj)
+			}
 			b := make([]Sc, xv.Len)
 			for i := 0; i < xv.Len; i++ {
 				b[i] = xv.Obj.Cells[xv.Off+i].(Sc)
@@ -1435,6 +1460,7 @@ func (in *Interp) builtin(b *ssa.Builtin, args []Val) Val {
 		case Slice:
 			n = min(dst.Len, src.Len)
 			if n > 0 {
+				in.noteAccess(src.Obj)
 				in.noteWrite(dst.Obj)
 				tmp := make([]Val, n)
 				copy(tmp, src.Obj.Cells[src.Off:src.Off+n])
@@ -1458,6 +1484,9 @@ func (in *Interp) builtin(b *ssa.Builtin, args []Val) Val {
 		var add []Val
 		switch t := args[1].(type) {
 		case Slice:
+			if t.Len > 0 {
+				in.noteAccess(t.Obj)
+			}
 			for i := 0; i < t.Len; i++ {
 				add = append(add, copyVal(t.Obj.Cells[t.Off+i]))
 			}
